@@ -1,7 +1,7 @@
 """C07 — quick recurrence check: every verdict is true."""
 from lib import core, gen
 
-LEVEL = 'other'
+LEVEL = 'proof'
 LIMITS_Q = [1, 2, 3, 5, 9, 17, 33, 50, 100, 300]
 PLAIN_BUDGET = 200000
 CERT_T = 2500
